@@ -34,9 +34,12 @@ func genC07(g *Gen) *Plan {
 			return uncacheable(g, g.n(10, 200))
 		}
 		r := cacheable(3, 100)
-		r.Fault = pick(g, "err", "badenc")
+		r.Fault = pick(g, "err", "badenc", "abort", "hang")
 		if r.Fault == "badenc" {
 			r.Enc = "snz"
+		}
+		if r.Fault == "abort" {
+			r.Size = 600
 		}
 		return r
 	}
